@@ -405,9 +405,13 @@ class MeanAndVariance(Mean):
     other_count_ratio = math_utils.safe_divide(other.count, self._count)
     delta_mean = math_utils.nanadd(self._mean, -prev_mean)
     mean_diff = math_utils.nanadd(other.mean, -self._mean)
+    # A dimension that is all nan on one side only has count 0 and var nan there,
+    # it contributes nothing instead of turning the merged variance into nan.
+    prev_var = math_utils.where(np.isnan(self._var), 0, self._var)
+    other_var = math_utils.where(np.isnan(other.var), 0, other.var)
     self._var = (
-        prev_count_ratio * self._var
-        + other_count_ratio * other.var
+        prev_count_ratio * prev_var
+        + other_count_ratio * other_var
         + prev_count_ratio * delta_mean**2
         + other_count_ratio * mean_diff**2
     )
